@@ -31,8 +31,9 @@ def is_result_like(ty):
 
 
 def returns_result(fn):
+    """the function reports failure through its return value (Result, or Option with None = failure)"""
     out = fn.d.get('output') or (fn.locals[0]['ty'] if fn.locals else '')
-    return ty_is_result(out)
+    return ty_is_result(out) or ty_is_option(out)
 
 
 def exit_blocks(fn):
@@ -50,6 +51,8 @@ def exit_blocks(fn):
             rv = s['rv']
             if rv['k'] == 'agg' and rv.get('agg') == 'adt' and rv['adt'] == 'core::result::Result':
                 (acc if rv['variant'] == 'Ok' else rej).add(i)
+            elif rv['k'] == 'agg' and rv.get('agg') == 'adt' and rv['adt'] == 'core::option::Option':
+                (acc if rv['variant'] == 'Some' else rej).add(i)
             else:
                 acc.add(i)  # delegating move of a Result local: may accept
         t = b['term']
